@@ -262,7 +262,6 @@ def must_reject(fmt, text, label, via_file=False):
                 with open(path, "w") as fo:
                     fo.write(text)
                 obj.load(path)
-                obj.validate()
             finally:
                 shutil.rmtree(tmp, ignore_errors=True)
         else:
